@@ -41,8 +41,8 @@ def size_ok(call, payload):
 # ---------------------------------------------------------------------------------------------
 # boards
 class Board:
-    def __init__(self, devcfg, fwupd, relays, rs, inputs):
-        self.devcfg, self.fwupd, self.relays, self.rs, self.inputs = devcfg, fwupd, relays, rs, inputs
+    def __init__(self, devcfg, fwupd, relays, rs, inputs, rsflags=0):
+        self.devcfg, self.fwupd, self.relays, self.rs, self.inputs, self.rsflags = devcfg, fwupd, relays, rs, inputs, rsflags
     def ints(self):
         l = [self.devcfg, self.fwupd, len(self.relays)]
         for r in self.relays: l += list(r)
@@ -50,6 +50,7 @@ class Board:
         for r in self.rs: l += list(r)
         l.append(len(self.inputs))
         for i in self.inputs: l += list(i)
+        l.append(self.rsflags)
         return l
     @staticmethod
     def from_ints(l):
@@ -58,8 +59,8 @@ class Board:
         nrs = l[o]; o += 1
         rs = [tuple(l[o + 2 * i: o + 2 * i + 2]) for i in range(nrs)]; o += 2 * nrs
         nin = l[o]; o += 1
-        inputs = [tuple(l[o + 6 * i: o + 6 * i + 6]) for i in range(nin)]
-        return Board(devcfg, fwupd, relays, rs, inputs)
+        inputs = [tuple(l[o + 6 * i: o + 6 * i + 6]) for i in range(nin)]; o += 6 * nin
+        return Board(devcfg, fwupd, relays, rs, inputs, l[o] if o < len(l) else 0)
     # ---- ownership (independent python reading of "what belongs to channel c") ----
     def relay_channels_of_gpio(self, g):
         return {r[1] for r in self.relays if r[0] == g and r[0] != 255}
@@ -95,24 +96,28 @@ def make_board(rng, devcfg):
     for i in range(nrs):
         relays += [(pins.pop(), i, 0, 0), (pins.pop(), i, 0, 0)]
         rs.append((2 * i, 2 * i + 1))
+    C = consts()
     nplain = rng.randrange(0 if nrs else 1, min(8 - len(relays), len(pins)) + 1)
+    # channel numbers of plain relays: consecutive, or sparse/high (the per-channel arrays have 8 entries)
+    sparse = rng.random() < 0.3
+    plain_ch = sorted(rng.sample([7, 8, 9, 15, 16, 31, 100, 200, 254], nplain)) if sparse else [nrs + k for k in range(nplain)]
     for k in range(nplain):
-        flags = rng.choice([0, 0, 1, 2, 4, 0x10]); chflags = rng.choice([0, 0, 0x01000000])
-        relays.append((pins.pop(), nrs + k, flags, chflags))
+        flags = rng.choice([0, 0, 1, 2, 4, 0x10]); chflags = rng.choice([0, 0, C['FLAG_COUNTDOWN'], C['FLAG_RUNTIME_CONFIG'], C['FLAG_COUNTDOWN'] | C['FLAG_RUNTIME_CONFIG']])
+        relays.append((pins.pop(), plain_ch[k], flags, chflags))
     in_pins = [6, 7, 8, 9, 10, 11] + pins     # pins left over by the relays
     # inputs: the button pair of shutter i sits at 2i, 2i+1 (firmware convention); then buttons of plain relays / action triggers
     nin_max = 7
     for i in range(nrs):
         for j in (0, 1):
             if len(inputs) < nin_max: inputs.append((in_pins[len(inputs) % len(in_pins)], 1, 0, relays[2 * i + j][0], 255, 0))
-    nextch = nrs + nplain
+    nextch = (max(plain_ch) + 1 if plain_ch else nrs) if not sparse else 6
     for k in range(nplain):
         if len(inputs) >= nin_max or rng.random() < 0.3: break
-        if rng.random() < 0.3 and nextch < 8:   # at most 8 channels (registration indexes supla_rs_cfg by channel position)
+        if rng.random() < 0.3 and nextch < 8 and nextch not in plain_ch and nextch >= nrs and nrs + nplain + sum(1 for x in inputs if x[4] != 255) < 8:   # at most 8 channels (registration indexes supla_rs_cfg by channel position)
             inputs.append((in_pins[len(inputs) % len(in_pins)], 1, 0, relays[2 * nrs + k][0], nextch, 0x3FF)); nextch += 1
         else:
             inputs.append((in_pins[len(inputs) % len(in_pins)], 1, 0, relays[2 * nrs + k][0], 255, 0))
-    return Board(devcfg, 0, relays, rs, inputs)
+    return Board(devcfg, 0, relays, rs, inputs, rng.choice([0, 0, C['FLAG_RUNTIME_CONFIG']]))
 
 # ---------------------------------------------------------------------------------------------
 # messages
@@ -251,7 +256,7 @@ class C03(F.PropCheck):
         val = bytes([rng.choice([0, 1, 2, 3, 4, 5, 10, 60, 110, 111, 255, 128, rng.getrandbits(8)]), rng.choice([0, 10, 60, 110, 255, rng.getrandbits(8)])]) + bytes(rng.getrandbits(8) for _ in range(6))
         k = rng.random()
         if k < 0.22: call, p, tag = C['CALL_SET_VALUE'], m_newvalue(rng.getrandbits(31), channel(), dur, val), 'set_value'
-        elif k < 0.30: call, p, tag = C['CALL_GROUP_SET_VALUE'], m_group(5, 9, channel(), dur, val), 'group_set_value'
+        elif k < 0.30: call, p, tag = C['CALL_GROUP_SET_VALUE'], m_group(5, rng.choice([9, channel(), channel() + 256 * rng.randrange(3), rng.getrandbits(31)]), channel(), dur, val), 'group_set_value'
         elif k < 0.45:
             ch = rng.choice([channel(), channel(), -1, 256 + (chans[0] if chans else 0), -2 ** 31, 2 ** 31 - 1])
             cmd = rng.choice([C['CMD_RECALIBRATE']] * 4 + [0, 1, C['CMD_ENTER_CFG_MODE'], rng.getrandbits(31)])
@@ -303,6 +308,17 @@ class C03(F.PropCheck):
             call, p, t = self.gen_message(rng, b); tags |= set(t)
             evs.append(('SRV', [call, rr], p)); rr += 1
             if rng.random() < 0.45: evs.append(('ADV', [rng.choice([50000, 300000, 1200000, 3000000])], b''))
+        # channel-config handshake (devcfg): empty configs (Func > 0, ConfigSize 0), arbitrary functions stored from the server,
+        # CONFIG_FINISHED for every position incl. out of range -> supla_esp_set_channel_config() reads cfg tables by position
+        if devcfg and rng.random() < 0.3:
+            tags.add('config_handshake')
+            chs = sorted({r[1] for r in b.relays})[:8]
+            for ch in chs + [rng.choice([7, 8, 255])]:
+                func = rng.choice(C['rs_funcs'] + C['fb_funcs'] + RELAY_FUNCS + [700, 1, 2 ** 31 - 1, -5])
+                evs.append(('SRV', [C['CALL_GET_CONFIG_RESULT'], rr], m_config(ch, func, 0, b''))); rr += 1
+            for ch in list(range(0, 9)) + [255]:
+                evs.append(('SRV', [C['CALL_CONFIG_FINISHED'], rr], bytes([ch]))); rr += 1
+            evs.append(('ADV', [500000], b''))
         # countdown timers: arm channel Y, let the clock run (with or without timer callbacks), then a timed command on
         # another channel X evaluates Y's slot inside the handler (refresh of Time2Left[Y], or Y's switch-back on expiry)
         plain = [r[1] for r in b.relays[2 * len(b.rs):]]
@@ -315,13 +331,15 @@ class C03(F.PropCheck):
                 if rng.random() < 0.7: evs.append(('SKEW', [rng.choice([10000, 60000, 200000, 600000, 6000000])], b''))
                 for _k in range(rng.randrange(1, 3)):
                     if rng.random() < 0.5: evs.append(('SRV', [C['CALL_SET_VALUE'], rr], m_newvalue(8, x, rng.choice([300, 2000, 0]), [rng.choice([1, 1, 0])])))
-                    else: evs.append(('SRV', [C['CALL_GROUP_SET_VALUE'], rr], m_group(5, 9, x, rng.choice([300, 2000]), [1])))
+                    else: evs.append(('SRV', [C['CALL_GROUP_SET_VALUE'], rr], m_group(5, rng.choice([9, y]), x, rng.choice([300, 2000]), [1])))
                     rr += 1
                     if rng.random() < 0.3: evs.append(('SKEW', [rng.choice([60000, 400000])], b''))
                 if rng.random() < 0.6: evs.append(('ADV', [rng.choice([100000, 1200000, 3000000])], b''))
         # at most one message that takes the device off line, at the end
         if stop < 0.05:
-            url = bytes([1, 1]) + b'10.0.0.9'.ljust(101, b'\0') + struct.pack('<i', 80) + b'/fw.bin'.ljust(101, b'\0')
+            host = rng.choice([b'10.0.0.9'.ljust(101, b'\0'), b'A' * 101, b'update.example.org'.ljust(101, b'\0'), bytes(rng.randrange(1, 256) for _ in range(101))])
+            path = rng.choice([b'/fw.bin'.ljust(101, b'\0'), b'/' + b'p' * 100, bytes(rng.randrange(1, 256) for _ in range(101))])
+            url = bytes([1, rng.choice([1, 1, 3, 255])]) + host + struct.pack('<i', rng.choice([80, 0, -1, 65536, 2 ** 31 - 1])) + path
             evs.append(('SRV', [C['CALL_FW_URL_RESULT'], rr], url[:C['rows'][C['CALL_FW_URL_RESULT']][2]].ljust(C['rows'][C['CALL_FW_URL_RESULT']][2], b'\0'))); tags.add('stop:fw_url')
         elif stop < 0.10:
             evs.append(('SRV', [C['CALL_CALCFG'], rr], m_calcfg(1, -1, C['CMD_ENTER_CFG_MODE'], 1, 0, b''))); tags.add('stop:enter_cfgmode')
@@ -329,7 +347,7 @@ class C03(F.PropCheck):
             evs.append(('SRV', [C['CALL_REGISTER_RESULT'], rr], struct.pack('<iBBB', rng.choice([5, 6, 9, 77, 1000000, -100000, 2 ** 31 - 1, -2 ** 31, rng.getrandbits(32) - 2 ** 31]), 0, 23, 1))); tags.add('stop:register_failed')
         elif stop < 0.15:
             evs.append(('SRV', [C['CALL_VERSIONERROR'], rr], bytes([1, 23]))); tags.add('stop:version_error')
-        if len(evs) and evs[-1][0] == 'SRV' and stop < 0.15: evs.append(('ADV', [1500000], b''))
+        if len(evs) and evs[-1][0] == 'SRV' and stop < 0.15: evs.append(('ADV', [rng.choice([1500000, 4000000])], b''))
         return F.Case(cid, evs, sorted(tags))
 
     def config_sweep(self, rng, tier):
@@ -433,14 +451,21 @@ class C03(F.PropCheck):
                                  (k, call, len(p), 'is not a known call' if ok is None else 'does not have the size its type requires'))
                 if ok is not True and cells:
                     v.append('event %d: mis-sized/unknown call %d (%d bytes) had side effects on %s' % (k, call, len(p), sorted(cells)[:4]))
-                if b is not None and ok is True:
+                if b is not None and ok is True and call in C['dispatch'][1 if b.devcfg else 0]:
                     c = named_channel(call, p)
-                    if c is not None:
-                        named.add(c)
-                        for (t, i) in sorted(cells):
-                            own = b.owners(t, i)
-                            if own and c not in own and not self.timer_maintenance(b, t, i, own, info):
-                                v.append('event %d: call %d names channel %d but cell (table %d, index %d) of channel %s changed' % (k, call, c, t, i, sorted(own)))
+                    has_obj = c is not None and any(r[1] == c and r[0] != 255 for r in b.relays)
+                    if c is not None: named.add(c)
+                    for (t, i) in sorted(cells):
+                        own = b.owners(t, i)
+                        excused = bool(own) and self.timer_maintenance(b, t, i, own, info)
+                        if c is not None and own and c not in own and not excused:
+                            v.append('event %d: call %d names channel %d but cell (table %d, index %d) of channel %s changed' % (k, call, c, t, i, sorted(own)))
+                        elif c is not None and t == 18 and not has_obj and not excused:
+                            v.append('event %d: call %d names channel %d, which no relay or shutter of the device carries, but output pin %d changed' % (k, call, c, i))
+                        elif c is not None and (t, i) in ((19, 1), (19, 2)):
+                            v.append('event %d: call %d names channel %d but device-level %s bytes outside the per-channel tables changed' % (k, call, c, 'configuration' if i == 1 else 'state'))
+                        elif c is None and own and not excused:
+                            v.append('event %d: call %d names no channel but cell (table %d, index %d) of channel %s changed' % (k, call, t, i, sorted(own)))
             elif kind == 'ADV' and b is not None:
                 for (t, i) in sorted(cells):
                     own = b.owners(t, i)
